@@ -22,7 +22,7 @@ RULE = (
     "models from vlib.modelgen with 3-6 states, pairwise distinct defaults and (by construction of distinct "
     "additive offsets) pairwise distinct derivative values x backend in {numpy, jax, C} x one of the 6 rhs "
     "argument orders x one of the 24 scheme argument orders (thorough: every order is visited many times) x "
-    "keyword overrides. Checked: index maps are bijections onto range(n) and refuse unknown names, init_* put "
+    "the generator's remove_unused option x keyword overrides. Checked: index maps are bijections onto range(n) and refuse unknown names, init_* put "
     "each default / override in exactly the reported slot, rhs / explicit_euler / monitor_values write the "
     "reference value of X into slot index(X), counts equal lengths, the formal parameters are the order's "
     "letters and permuted-argument calls equal the default-order call bitwise. Non-trivial = >= 3 states "
@@ -58,7 +58,7 @@ def strategy(tier):
         so = draw(st.sampled_from(SCHEME_ORDERS))
         on = draw(st.sampled_from(X.state_names(model)))
         pn = draw(st.sampled_from(X.param_names(model))) if model["params"] else None
-        return {"model": model, "points": pts, "backend": backend, "rhs_order": ro, "scheme_order": so, "override": [on, pn, draw(st.sampled_from([-7.25, 0.5, 3e3]))], "dt": 0.125}
+        return {"model": model, "points": pts, "backend": backend, "rhs_order": ro, "scheme_order": so, "override": [on, pn, draw(st.sampled_from([-7.25, 0.5, 3e3]))], "dt": 0.125, "remove_unused": draw(st.sampled_from([False, False, True]))}
 
     return _s()
 
@@ -67,14 +67,14 @@ def sample_view(case):
     return {"text": X.render_model(case["model"]), "backend": case["backend"], "rhs_order": case["rhs_order"], "scheme_order": case["scheme_order"]}
 
 
-def build(ode, backend, ro, so):
+def build(ode, backend, ro, so, remove_unused=False):
     """assemble a module the way get_code does, with explicit argument orders"""
     from gotranx.schemes import get_scheme
 
     if backend == "C":
         from gotranx.codegen.c import CCodeGenerator, Format
 
-        cg = CCodeGenerator(ode, format=Format.none)
+        cg = CCodeGenerator(ode, format=Format.none, remove_unused=remove_unused)
         head = [
             cg.imports(),
             f"int NUM_STATES = {len(ode.states)};",
@@ -85,7 +85,7 @@ def build(ode, backend, ro, so):
         from gotranx.codegen.python import PythonCodeGenerator, Format
         from gotranx.codegen.jax import JaxCodeGenerator
 
-        cg = (PythonCodeGenerator if backend == "numpy" else JaxCodeGenerator)(ode, format=Format.none)
+        cg = (PythonCodeGenerator if backend == "numpy" else JaxCodeGenerator)(ode, format=Format.none, remove_unused=remove_unused)
         head = [cg.imports()]
     comp = head + [
         cg.parameter_index(),
@@ -105,11 +105,12 @@ def check_case(case):
     text = X.render_model(model)
     ode = oracle.load_or_skip(text)
     backend, ro, so = case["backend"], case["rhs_order"], case["scheme_order"]
-    ctx = {"text": text, "backend": backend, "rhs_order": ro, "scheme_order": so}
+    ctx = {"text": text, "backend": backend, "rhs_order": ro, "scheme_order": so, "remove_unused": bool(case.get("remove_unused"))}
     names = {"state": X.state_names(model), "parameter": X.param_names(model), "monitor": [a["name"] for a in model["assigns"]]}
     try:
-        code = build(ode, backend, ro, so)
-        ref_code = build(ode, backend, "tsp", "stdp") if (ro, so) != ("tsp", "stdp") else code
+        ru = bool(case.get("remove_unused"))
+        code = build(ode, backend, ro, so, ru)
+        ref_code = build(ode, backend, "tsp", "stdp", ru) if (ro, so) != ("tsp", "stdp") else code
     except Exception as ex:
         raise Violation(f"C04:{backend}:codegen:{type(ex).__name__}", dict(ctx, error=str(ex)[:500]))
     try:
@@ -202,7 +203,7 @@ def check_case(case):
     sidx = mod.index("state")
     slot_order = sorted(names["state"], key=lambda n: sidx[n])
     nontrivial = n_ok > 0 and len(names["state"]) >= 3 and slot_order != names["state"] and slot_order != sorted(names["state"])
-    labs = [f"backend:{backend}", f"rhs:{ro}", f"scheme:{so}"]
+    labs = [f"backend:{backend}", f"rhs:{ro}", f"scheme:{so}", f"remove_unused:{bool(case.get('remove_unused'))}"]
     if slot_order == sorted(names["state"]):
         labs.append("slots-alphabetical")
     return {"nontrivial": nontrivial, "labels": labs, "counters": counters}
